@@ -9,45 +9,65 @@ Model: `Obao/Model/Expiration.lean` (tied to the real `ExpirationManager` by str
 namespace C05b
 open Obao.Expiration Obao.TTL
 
-/-- **tracked = stored**, for EVERY history: after any finite sequence of complete operations — creations, renewals,
-sync and lazy revocations, token revocations with their cascade, time passing (`age`), backend failure modes, lost
-timers (`freeze`), restarts, and crashes at ANY point of any operation followed by a restart (`crashRestart` puts
-an arbitrary set of lease entries into storage) — a lease id has an entry in storage iff the manager holds it in
-`pending`, `irrevocable` or `nonexpiring`. -/
+/-- **tracked = stored, per unsealed namespace**, for EVERY history: after any finite sequence of operations —
+creations (root namespace and the sealable namespaces), renewals, sync and lazy revocations, token revocations with
+their cascade, time passing (`age`), backend failure modes, lost timers (`freeze`), restarts, namespace seals and
+unseals INCLUDING unseals whose lease restore is still in flight while other leases are loaded (`unsealBegin` …
+`unsealEnd`, any overlap of several namespaces' restores), and crashes at ANY point of any operation followed by a
+restart (`crashRestart` puts an arbitrary set of lease entries into storage) — a lease id is held in `pending`,
+`irrevocable` or `nonexpiring` iff it has an entry in storage whose namespace is not sealed and which is not the lease
+an in-flight namespace restore has yet to reach. -/
 theorem tracked_eq_stored (ops : List Op) (id : Nat) :
-    (∃ l ∈ (run St.init ops).stored, l.id = id) ↔
-    (id ∈ (run St.init ops).pending ∨ id ∈ (run St.init ops).irrevocable ∨ id ∈ (run St.init ops).nonexpiring) :=
-  Inv_run ops St.init Inv_init id
+    (id ∈ (run St.init ops).pending ∨ id ∈ (run St.init ops).irrevocable ∨ id ∈ (run St.init ops).nonexpiring) ↔
+    (∃ l ∈ (run St.init ops).stored, l.id = id ∧ unreachable (run St.init ops) l = false) := by
+  have h := Inv_run ops St.init Inv_init
+  exact (h.te id).trans (elig_iff _ id)
 
-/-- The restart half needs NO hypothesis on the state before it (memory may be anything, storage may be any crash
-prefix): `Restore` rebuilds the tracking maps from whatever is stored. -/
-theorem restart_tracks_stored (s : St) (now : Int) (id : Nat) :
-    (∃ l ∈ (restart s now).stored, l.id = id) ↔
-    (id ∈ (restart s now).pending ∨ id ∈ (restart s now).irrevocable ∨ id ∈ (restart s now).nonexpiring) :=
-  Inv_restart s now id
+/-- In particular, right after ANY unseal of a namespace (however its earlier restores overlapped with loads of its
+leases) every lease stored in that namespace is tracked. -/
+theorem unseal_tracks_every_lease (ops : List Op) (ns : Nat) (now : Int) (l : Lease) :
+    let s := run St.init (ops ++ [.unsealNs ns now])
+    l ∈ s.stored → unreachable s l = false → (l.id ∈ s.pending ∨ l.id ∈ s.irrevocable ∨ l.id ∈ s.nonexpiring) := by
+  intro s hl hu
+  exact (tracked_eq_stored (ops ++ [.unsealNs ns now]) l.id).mpr ⟨l, hl, rfl, hu⟩
+
+/-- The side invariant the unseal relies on: in every reachable state no `restoreLoaded` mark belongs to a sealed
+namespace (`StopNamespace` clears the namespace's marks unconditionally) and none sits on a lease a restore still has
+to reach — so `processRestore` never skips a lease that is not tracked. -/
+theorem no_mark_in_sealed_namespace (ops : List Op) (m : Nat × Nat) (hm : m ∈ (run St.init ops).marks) :
+    (run St.init ops).sealed.contains m.2 = false ∧ (run St.init ops).held.any (·.2 == m.1) = false :=
+  (Inv_run ops St.init Inv_init).mlive m hm
+
+/-- The restart half needs nothing of the memory before it (tracking maps, marks, restore mode, holds may be anything;
+storage any map of lease entries): `Restore` rebuilds the tracking maps from whatever is stored in the namespaces
+that are not sealed. -/
+theorem restart_tracks_stored (s : St) (hw : WF s) (now : Int) (id : Nat) :
+    (id ∈ (restart s now).pending ∨ id ∈ (restart s now).irrevocable ∨ id ∈ (restart s now).nonexpiring) ↔
+    (∃ l ∈ (restart s now).stored, l.id = id ∧ unreachable (restart s now) l = false) :=
+  ((Inv_restart s hw now).te id).trans (elig_iff _ id)
 
 /-- An irrevocable, zero-expiry, expired or non-renewable lease cannot be renewed: `Renew` answers with an error
-and changes nothing (in particular the expiry). -/
+and leaves storage (in particular the expiry) as it was. -/
 theorem unrenewable_refused (s : St) (id : Nat) (incr now : Int) (l : Lease) (hl : find? s id = some l)
     (h : l.irrevocable = true ∨ l.expiry = none ∨ expired l now = true ∨ l.renewable = false) :
-    ∃ e, renew s id incr now = (s, .err e) := by
+    ∃ e s', renew s id incr now = (s', .err e) ∧ s'.stored = s.stored := by
   unfold renew
   simp only [hl]
-  have := renewableCheck_some l now h
-  obtain ⟨e, he⟩ := this
-  exact ⟨e, by simp [he]⟩
+  split
+  · exact ⟨_, _, rfl, rfl⟩
+  · obtain ⟨e, he⟩ := renewableCheck_some l now h
+    exact ⟨e, loadMark s l, by simp [he], (loadMark_frame s l).1⟩
 
 /-- the same for tokens (`RenewToken`) -/
 theorem unrenewable_token_refused (s : St) (id : Nat) (incr now : Int) (l : Lease) (hl : find? s id = some l)
     (h : l.irrevocable = true ∨ l.expiry = none ∨ expired l now = true ∨ l.renewable = false) :
-    ∃ e, tokRenew s id incr now = (s, .err e) := by
+    ∃ e s', tokRenew s id incr now = (s', .err e) ∧ s'.stored = s.stored := by
   unfold tokRenew
   split
-  · exact ⟨_, rfl⟩
+  · exact ⟨_, _, rfl, rfl⟩
   · simp only [hl]
-    have := renewableCheck_some l now h
-    obtain ⟨e, he⟩ := this
-    exact ⟨e, by simp [he]⟩
+    obtain ⟨e, he⟩ := renewableCheck_some l now h
+    exact ⟨e, loadMark s l, by simp [he], (loadMark_frame s l).1⟩
 
 /-- A granted renewal of a secret lease ends no later than issue time + the effective maximum (the smallest positive
 of system and backend maximum), whatever the increment and whenever it happens; the issue time is not rewritten. -/
@@ -61,17 +81,19 @@ theorem renew_within_max (s s' : St) (id : Nat) (incr now t : Int) (l : Lease) (
   split at h
   · cases h
   · split at h
-    · rename_i t' w hc
-      simp only [Prod.mk.injEq, Out.okTTL.injEq] at h
-      obtain ⟨hs, rfl⟩ := h
-      refine ⟨calcTTL_nonperiodic_bound _ _ _ (Int.le_refl 0) hc, ?_⟩
-      subst hs
-      obtain ⟨hid, hmem⟩ := find?_some_id s id l hl
-      refine ⟨{ l with expiry := some (now + t') }, ?_, hid, rfl, rfl⟩
-      rw [stored_updatePending]
-      exact mem_putLease_of_stored s l _ hmem rfl
     · cases h
-    · cases h
+    · split at h
+      · rename_i t' w hc
+        simp only [Prod.mk.injEq, Out.okTTL.injEq] at h
+        obtain ⟨hs, rfl⟩ := h
+        refine ⟨calcTTL_nonperiodic_bound _ _ _ (Int.le_refl 0) hc, ?_⟩
+        subst hs
+        obtain ⟨hid, hmem⟩ := find?_some_id s id l hl
+        refine ⟨{ l with expiry := some (now + t') }, ?_, hid, rfl, rfl⟩
+        rw [(updatePending_frame _ _).1]
+        exact mem_putLease _ _
+      · cases h
+      · cases h
 
 /-- the same bound for a fresh secret lease (`reg`): its first expiry is within issue + effective maximum -/
 theorem reg_within_max (s s' : St) (owner id : Nat) (ttl max t now : Int) (ren : Bool)
@@ -128,6 +150,17 @@ theorem tick_resolves_expired (fuel : Nat) (s : St) (now : Int) (hfr : s.frozen 
 
 /-! ### non-vacuity -/
 
+/-- the history of the seeded defect: a lease of namespace 2 is renewed while namespace 1's restore is in flight (its
+mark outlives that restore), then namespace 2 is sealed and unsealed — the lease is tracked again; and the mark is
+really there in between -/
+example :
+    let ops : List Op := [.tokCreate 14400 0 true 0, .nsReg 1 3600 7200 true 1, .nsReg 2 3600 7200 true 2, .sealNs 1,
+      .unsealBegin 1 1 3, .renew 2 60 4, .unsealEnd 1 5]
+    (run St.init ops).marks = [(2, 2)] ∧ (run St.init (ops ++ [.sealNs 2])).marks = [] ∧
+    (run St.init (ops ++ [.sealNs 2])).pending = [0, 1] ∧
+    (run St.init (ops ++ [.sealNs 2, .unsealNs 2 6])).pending = [0, 1, 2] := by
+  decide
+
 /-- a history with a creation, a renewal capped by the backend maximum, a lazy revocation under a failing backend
 (→ irrevocable after 6 calls), and a restart: tracked = stored holds and is non-trivial -/
 example :
@@ -142,7 +175,7 @@ example : (renew (run St.init [.tokCreate 14400 0 true 0, .reg 0 3600 7200 true 
 example : (renew (run St.init [.tokCreate 14400 0 true 0, .reg 0 3600 7200 true 1, .setFail .unrecoverable,
     .revoke 1 false 2]) 1 60 3).2 = .err "irrevocable" := by decide
 /-- a crash that leaves an arbitrary lease entry behind: the restart tracks it -/
-example : (run St.init [.crashRestart [⟨7, false, 0, 0, some 100, 60, 0, 0, true, false, false⟩] 5]).pending = [7] := by
+example : (run St.init [.crashRestart [⟨7, false, 0, 0, some 100, 60, 0, 0, true, false, false, 0⟩] 5]).pending = [7] := by
   decide
 
 end C05b
